@@ -195,9 +195,13 @@ def query (q : Query) (name : Bytes) (d : Option Bytes) : Bytes :=
   | some dv => if v = [] then dv else v
   | none => v
 
-/-- context.go:284 `QueryTrim` = `strings.TrimSpace(c.Query(name, defaultVal...))` -/
+/-- context.go `QueryTrim`: `v := c.Query(name)`; the default is returned UNCHANGED when `v` is
+    empty and one was given, otherwise `strings.TrimSpace(v)` -/
 def queryTrim (q : Query) (name : Bytes) (d : Option Bytes) : Bytes :=
-  trimSpace (query q name d)
+  let v := query q name none
+  match d with
+  | some dv => if v = [] then dv else trimSpace v
+  | none => trimSpace v
 
 /-- context.go:288 `QueryStrings`: the map is ranged over for the key; then the default, then `[]string{}` -/
 def queryStrings (q : Query) (name : Bytes) (d : Option (List Bytes)) : List Bytes :=
@@ -205,10 +209,13 @@ def queryStrings (q : Query) (name : Bytes) (d : Option (List Bytes)) : List Byt
   | [] => d.getD []
   | vs => vs
 
-/-- context.go:301 `QueryUnescape` = `v, _ := url.QueryUnescape(c.Query(name, defaultVal...))`;
-    on error the value component is "" -/
+/-- context.go `QueryUnescape`: `v := c.Query(name)`; the default is returned UNCHANGED when `v` is
+    empty and one was given, otherwise `v, _ = url.QueryUnescape(v)` — "" when that fails -/
 def queryUnescapeAcc (q : Query) (name : Bytes) (d : Option Bytes) : Bytes :=
-  (queryUnescape (query q name d)).getD []
+  let v := query q name none
+  match d with
+  | some dv => if v = [] then dv else (queryUnescape v).getD []
+  | none => (queryUnescape v).getD []
 
 /-- context.go:306 `QueryBool` -/
 def queryBool (q : Query) (name : Bytes) (d : Option Bool) : Bool :=
